@@ -208,7 +208,11 @@ func (c *pickdoneC) Op(f []string) string {
 		if m["dis"] == "1" {
 			dopts = append(dopts, grpc.WithDisableRetry())
 		}
-		c.env = newRetryEnv(parseScript(m["script"]), retryServiceConfig(m, pdName), dopts, m["kind"], nil)
+		var copts []grpc.CallOption
+		if cr := parseNS(m["ns"]); cr != nil {
+			copts = append(copts, grpc.PerRPCCredentials(cr))
+		}
+		c.env = newRetryEnv(parseScript(m["script"]), retryServiceConfig(m, pdName), dopts, m["kind"], copts)
 		c.st.signal = c.env.srv.signal
 		c.env.extraReact = func() bool {
 			c.st.mu.Lock()
